@@ -1155,7 +1155,7 @@ func (ev *symEval) evalValue(fr *symFrame, st *symState, v ssa.Value) SV {
 				noteBound(x, d.N == 0) // a division evaluated with a concrete divisor
 			}
 		}
-		return evalBin(x.Op, ev.val(fr, x.X), ev.val(fr, x.Y))
+		return evalBinTyped(x.Op, ev.val(fr, x.X), ev.val(fr, x.Y), x.X.Type(), x.Type())
 	case *ssa.Convert:
 		a := ev.val(fr, x.X)
 		if a.K == "int" {
@@ -1469,6 +1469,60 @@ func (ev *symEval) evalValue(fr *symFrame, st *symState, v ssa.Value) SV {
 		return ev.val(fr, x.X)
 	}
 	return symOpaque(fmt.Sprintf("?%T", v))
+}
+
+// evalBinTyped is evalBin with Go's integer semantics for the operand type: 64-bit unsigned operands are
+// compared, divided and shifted as unsigned, and a known result wraps to the width of the result type.
+func evalBinTyped(op token.Token, a, b SV, operand, result types.Type) SV {
+	if a.K == "int" && b.K == "int" && a.Known && b.Known {
+		if bt, ok := operand.Underlying().(*types.Basic); ok && bt.Info()&types.IsUnsigned != 0 {
+			switch bt.Kind() {
+			case types.Uint64, types.Uint, types.Uintptr:
+				ua, ub := uint64(a.N), uint64(b.N)
+				switch op {
+				case token.LSS:
+					return symBool(ua < ub)
+				case token.LEQ:
+					return symBool(ua <= ub)
+				case token.GTR:
+					return symBool(ua > ub)
+				case token.GEQ:
+					return symBool(ua >= ub)
+				case token.QUO:
+					if ub != 0 {
+						return symInt(int64(ua / ub))
+					}
+				case token.REM:
+					if ub != 0 {
+						return symInt(int64(ua % ub))
+					}
+				case token.SHR:
+					return symInt(int64(ua >> ub))
+				}
+			}
+		}
+	}
+	r := evalBin(op, a, b)
+	if r.K == "int" && r.Known {
+		if bt, ok := result.Underlying().(*types.Basic); ok && bt.Info()&types.IsInteger != 0 {
+			switch bt.Kind() {
+			case types.Uint8:
+				r.N = int64(uint8(r.N))
+			case types.Uint16:
+				r.N = int64(uint16(r.N))
+			case types.Uint32:
+				r.N = int64(uint32(r.N))
+			case types.Int8:
+				r.N = int64(int8(r.N))
+			case types.Int16:
+				r.N = int64(int16(r.N))
+			case types.Int32:
+				r.N = int64(int32(r.N))
+			}
+			r.Desc = fmt.Sprint(r.N)
+		}
+	}
+	return r
 }
 
 func evalBin(op token.Token, a, b SV) SV {
